@@ -101,6 +101,14 @@ CLAIMED = {
             "assignments, 432k). The set of failing real cases coincided with the model-flagged set when first run.",
             "Value pool bounded; names over letters/digits/-/_ sampled by 5 representatives.",
             "§8 C15"),
+    "C19": ("Text.tla renders every program with 12 layouts and TLC asserts on the model that each rendering reads back to "
+            "the same forms (layout insensitivity); Def.tla gives the program's meaning; the real code then runs the program "
+            "through 7 delivery routes, each compared with Def and all compared with each other",
+            "Exhaustive over C01-grammar programs up to 2 (quick) / 3 (thorough) nodes + 22 multi-form programs x 12 layouts "
+            "x 7 routes (8.5k / 120k route executions).",
+            "Routes built by the harness (file written to a temp dir for load-file); REPL route compares the printed value "
+            "re-read when it is data.",
+            "§8 C19"),
 }
 
 NOT_YET = "check not built yet in this round (planned in DESIGN.md §8; the specification module exists or is in progress)"
